@@ -452,8 +452,11 @@ def generated_rules(ctx):
     for i in range(ctx.budget(10, 60)):
         lib = "ufoLib2"        # (defcon recurses on mutually referencing swaps: observation O6)
         base = dsgen.base_master(rng, max_depth=1)
-        masters = [base, dsgen.perturb(rng, base, 1)]
         names = [g["name"] for g in base["glyphs"]]
+        # groups of both kinds name the glyphs the rules swap: kerning groups AND plain ones (their references are swapped too)
+        base["groups"] = dict(base.get("groups", {}), **{"public.kern1.first": [names[0], names[2]], "public.kern2.second": [names[1]],
+                                                         "uppercase": [names[0], names[1], names[3 % len(names)]], "alternates": [names[2]]})
+        masters = [base, dsgen.perturb(rng, base, 1)]
         pairs = [(names[0], names[1]), (names[1], names[2]), (names[2], names[0]), ("ghost", names[0])]
 
         def with_rules(add):
